@@ -1024,22 +1024,34 @@ Ltac far_tac :=
 Lemma bsr_eq_refl_RNum q ax a p : bsr_eq RNum q ax a p q ax a p = true.
 Proof.
   unfold bsr_eq. rewrite Z.eqb_refl. cbn [negb].
-  assert (H1 : nltb RNum (atol RNum) (nabs RNum (nsub RNum p p)) = false).
-  { change (Rltb (atol RNum) (Rabs (p - p)) = false). apply Rltb_false.
+  assert (H1 : nleb RNum (nabs RNum (nsub RNum p p)) (atol RNum) = true).
+  { change (Rleb (Rabs (p - p)) (atol RNum) = true). apply Rleb_true.
     rewrite atol_RNum. replace (p - p) with 0 by ring. rewrite Rabs_R0. lra. }
   rewrite H1, close_axis_refl.
+  destruct (nltb RNum (nabs RNum a) (atol RNum) && nltb RNum (nabs RNum a) (atol RNum));
+    [reflexivity|].
+  cbn [andb].
   change (Rltb (Rabs (a - a)) (atol RNum) = true). apply Rltb_true.
   rewrite atol_RNum. replace (a - a) with 0 by ring. rewrite Rabs_R0. lra.
 Qed.
 
+(* far axes are unequal, provided the first rotation is not an identity
+   (two identity rotations compare equal whatever their axes) *)
 Lemma bsr_eq_far q ax a p q2 ax2 a2 p2 :
+  / 10000000 <= Rabs a ->
   close_axis RNum ax ax2 = false -> close_axis RNum ax (neg_axis RNum ax2) = false ->
   bsr_eq RNum q ax a p q2 ax2 a2 p2 = false.
 Proof.
-  intros H1 H2. unfold bsr_eq. rewrite H1, H2.
+  intros Ha H1 H2. unfold bsr_eq. rewrite H1, H2.
   destruct (negb (q =? q2)%Z); [reflexivity|].
-  destruct (nltb RNum (atol RNum) (nabs RNum (nsub RNum p p2))); reflexivity.
+  assert (H3 : nltb RNum (nabs RNum a) (atol RNum) = false).
+  { change (Rltb (Rabs a) (atol RNum) = false). apply Rltb_false.
+    rewrite atol_RNum. exact Ha. }
+  rewrite H3. reflexivity.
 Qed.
+
+Lemma PI_not_small : / 10000000 <= Rabs PI.
+Proof. pose proof PI2_3_2. rabs_lra. Qed.
 
 Lemma default_X_RNum t :
   default_gate RNum "X" [AQ t] = Ok (BSR t (1, 0, 0) PI (PI / 2), gi "X" [AQ t]).
@@ -1056,6 +1068,7 @@ Proof. unfold bsr_equals_default. rewrite default_Z_RNum. apply bsr_eq_refl_RNum
 Lemma Z_not_X t : bsr_equals_default RNum "X" t (0, 0, 1) PI (PI / 2) = false.
 Proof.
   unfold bsr_equals_default. rewrite default_X_RNum. apply bsr_eq_far.
+  - exact PI_not_small.
   - unfold close_axis, ax_x, ax_y, ax_z. cbn [fst snd].
     far_tac. reflexivity.
   - unfold close_axis, neg_axis, ax_x, ax_y, ax_z. cbn [fst snd nneg RNum].
@@ -1110,16 +1123,57 @@ Proof.
   rewrite default_Y_RNum. intros H; inversion H; subst.
   apply export_gate_ctrl_other; unfold bsr_equals_default.
   - rewrite default_X_RNum. apply bsr_eq_far.
+    + exact PI_not_small.
     + unfold close_axis, ax_x, ax_y, ax_z. cbn [fst snd].
       far_tac. reflexivity.
     + unfold close_axis, neg_axis, ax_x, ax_y, ax_z. cbn [fst snd nneg RNum].
       far_tac. reflexivity.
   - rewrite default_Z_RNum. apply bsr_eq_far.
+    + exact PI_not_small.
     + unfold close_axis, ax_x, ax_y, ax_z. cbn [fst snd].
       far_tac. rewrite andb_false_r. reflexivity.
     + unfold close_axis, neg_axis, ax_x, ax_y, ax_z. cbn [fst snd nneg RNum].
       far_tac. rewrite andb_false_r. reflexivity.
 Qed.
+
+(* the repaired __eq__ identifies a half turn about -n with (minus) the half
+   turn about n: X written with the negated axis is still recognised as X *)
+Lemma negX_equals_X t :
+  bsr_equals_default RNum "X" t (-1, 0, 0) PI (- (PI / 2)) = true.
+Proof.
+  unfold bsr_equals_default. rewrite default_X_RNum.
+  unfold bsr_eq. rewrite Z.eqb_refl. cbn [negb].
+  pose proof PI2_3_2 as HPI.
+  assert (H1 : nltb RNum (nabs RNum PI) (atol RNum) = false).
+  { change (Rltb (Rabs PI) (atol RNum) = false). apply Rltb_false.
+    rewrite atol_RNum. exact PI_not_small. }
+  rewrite H1. cbn [andb].
+  assert (H2 : close_axis RNum (-1, 0, 0) (1, 0, 0) = false).
+  { unfold close_axis, ax_x, ax_y, ax_z. cbn [fst snd]. far_tac. reflexivity. }
+  rewrite H2.
+  assert (H3 : close_axis RNum (-1, 0, 0) (neg_axis RNum (1, 0, 0)) = true).
+  { unfold close_axis, neg_axis, ax_x, ax_y, ax_z. cbn [fst snd nneg RNum].
+    replace (- 0) with 0 by ring. rewrite !close_r_refl. reflexivity. }
+  rewrite H3.
+  assert (H4 : nleb RNum (nabs RNum (nsub RNum (- (PI / 2)) (PI / 2))) (atol RNum) = false).
+  { change (Rleb (Rabs (- (PI / 2) - PI / 2)) (atol RNum) = false). apply Rleb_false.
+    rewrite atol_RNum. rabs_lra. }
+  rewrite H4. cbn [andb].
+  change (Rleb (Rabs (Rabs (- (PI / 2) - PI / 2) - PI)) (atol RNum) &&
+          (Rltb (Rabs (Rabs PI - PI)) (atol RNum) &&
+           Rltb (Rabs (Rabs PI - PI)) (atol RNum)) = true).
+  rewrite atol_RNum.
+  replace (Rabs (- (PI / 2) - PI / 2)) with PI by rabs_lra.
+  replace (Rabs PI) with PI by rabs_lra.
+  replace (PI - PI) with 0 by ring. rewrite Rabs_R0.
+  assert (E1 : Rleb 0 (/ 10000000) = true) by (apply Rleb_true; lra).
+  assert (E2 : Rltb 0 (/ 10000000) = true) by (apply Rltb_true; lra).
+  rewrite E1, E2. reflexivity.
+Qed.
+
+Theorem cnot_negated_representation c t :
+  export_gate RNum (Ctrl c (BSR t (-1, 0, 0) PI (- (PI / 2)))) = Ok (QCNOT c t).
+Proof. rewrite export_gate_ctrl_bsr, negX_equals_X. reflexivity. Qed.
 
 Print Assumptions rxy_denotes.
 Print Assumptions rz_signed.
@@ -1128,3 +1182,5 @@ Print Assumptions export_bsr_unsupported.
 Print Assumptions cnot_of_default_X.
 Print Assumptions default_CNOT_exports.
 Print Assumptions controlled_Y_unsupported.
+
+Print Assumptions cnot_negated_representation.
